@@ -487,12 +487,35 @@ def main():
             finally:
                 rr.close()
                 shutil.rmtree(w, ignore_errors=True)
+        # ---------- (b2) the same three-state oracle on the tree with non-UTF-8 and quoted names: modify / stage / delete / stage
+        odd = TREES["odd"]
+        for p_ in sorted(odd):
+            cases += 1
+            w = os.path.join(d, f"odd{cases}")
+            try:
+                porcelain.clone(src, w, checkout=True, branch=b"odd", errstream=NULL)
+                rr = Repo(w)
+                fp_ = os.path.join(os.fsencode(w), p_)
+                steps = [("modify", lambda: open(fp_, "ab").write(b"changed\n")), ("stage", lambda: porcelain.add(rr)),
+                         ("delete", lambda: os.remove(fp_)), ("stage", lambda: porcelain.add(rr))]
+                for label, fn_ in steps:
+                    fn_()
+                    want = oracle(odd, index_listing(rr), wd_listing(w))
+                    got = status_sets(rr)
+                    if got != want:
+                        fail("status differs from the three-state oracle", {"tree": "odd", "path": p_.decode("latin-1"), "after": label, "got": repr(got)[:300], "want": repr(want)[:300]})
+                        break
+                    if label == "stage" and index_listing(rr) != wd_listing(w):
+                        fail("after staging everything the index differs from the directory", {"tree": "odd", "path": p_.decode("latin-1")})
+                rr.close()
+            except Exception as e:  # noqa: BLE001
+                fail("status after edits raised", {"tree": "odd", "path": p_.decode("latin-1"), "exc": repr(e)[:300]})
     sys.stdout.flush()
     print("\n" + json.dumps({"name": "c18_worktree", "function": "dulwich/index.py build_index_from_tree/update_working_tree/get_unstaged_changes, porcelain.status/checkout/add/clone",
                       "cases": cases, "exhaustive": True,
                       "bound": f"{len(TREES)} trees (files, empty, binary, non-UTF-8 and quoted names, executables, symlinks, nesting, file/dir/link type swaps): checkout + all ordered "
                       f"branch switches, and the same switches with one of the first 4 tracked paths deleted on disk / replaced by a directory holding an untracked file, or with a tracked directory replaced by a symlink to an outside copy ({skipped_refused[0]} refused by dulwich and left untouched: skipped); "
-                      f"all sequences of <= {K} of {len(EDITS)} edits on the base tree with status checked after every edit"
+                      f"all sequences of <= {K} of {len(EDITS)} edits on the base tree with status checked after every edit; modify / stage / delete / stage on every path of the tree with non-UTF-8 and quoted names"
                       + ("; git 2.39 status cross-check on every 4th sequence" if tier == "thorough" else ""),
                       "failures": failures, "secs": round(time.time() - t0, 2)}))
 
